@@ -133,12 +133,16 @@ type RaceCfg struct {
 	CreateMode int
 	// Unknown adds a creation section naming a goroutine that took part in no operation.
 	Unknown bool
+	// ForceArgs: every frame, also those of the creation stacks, is printed with arguments.
+	ForceArgs bool
+	// PtrPool: pointer-like argument values are drawn from this pool (recurrence across stacks).
+	PtrPool []uint64
 }
 
 // GenRace makes a report.
 func GenRace(r *core.Rand, rc *RaceCfg) *Race {
-	cfg := &Cfg{MaxDepth: 3, MaxArgs: 4, AllowPlus: true}
-	out := &Race{CRLF: r.Chance(1, 4), WithArgs: r.Chance(1, 3), NoFinalEOL: r.Chance(1, 12)}
+	cfg := &Cfg{MaxDepth: 3, MaxArgs: 4, AllowPlus: true, PtrPool: rc.PtrPool}
+	out := &Race{CRLF: r.Chance(1, 4), WithArgs: r.Chance(1, 3) || rc.ForceArgs, NoFinalEOL: r.Chance(1, 12)}
 	nops := 2
 	if rc.MaxOps > 2 && r.Chance(1, 2) {
 		nops = 2 + r.Intn(rc.MaxOps-1)
